@@ -232,6 +232,69 @@ fn judge_pair(rec: &mut Rec, p: &Pair) {
     }
 }
 
+/// Values whose UTC instant is representable but whose *local* reading is not (within |offset| of a range end, the
+/// offset pointing outwards).  They cannot be built with set_offset (it refuses); they arise when a value that
+/// already carries the offset is moved there.  Ordering and equality are defined on the UTC instant, so they must
+/// work on such values like on any other.
+fn judge_outward_pair(rec: &mut Rec, rng: &mut Rng) {
+    rec.eval();
+    let off = match rng.below(3) {
+        0 => *rng.pick(&[3600i32, 7200, 86_399, 1, 43_200]),
+        _ => 1 + rng.below(86_399) as i32,
+    };
+    let high = rng.chance(1, 2);
+    let off = if high { off } else { -off };
+    // target instant: inside the band whose local reading is out of range
+    let depth = rng.range_i128(0, off.unsigned_abs() as i128 * NS - 1);
+    let i = if high { MAX_INSTANT - depth } else { MIN_INSTANT + depth };
+    let back: i128 = 3 * 86_400;
+    let i0 = if high { i - back * NS } else { i + back * NS };
+    rec.bin("outward/local-reading-beyond-the-range-end");
+    rec.nontrivial(hash_i128s(&[i, off as i128, 0x0303]));
+    let Some((a0, _)) = sane_value(i0, off) else {
+        rec.bin(SKIP_START);
+        return;
+    };
+    // move it there (arithmetic is C04's; if the value does not arrive, this case says nothing)
+    let a = match trap(|| if high { a0.add_seconds(back as u32) } else { a0.sub_seconds(back as u32) }) {
+        Ok(a) => a,
+        Err(_) => {
+            rec.bin("outward/could-not-move-the-value-there(other-property)");
+            return;
+        }
+    };
+    if trap(|| read(&a)).ok() != Some(i) {
+        rec.bin("outward/could-not-move-the-value-there(other-property)");
+        return;
+    }
+    let j = match rng.below(4) {
+        0 => i,
+        1 => i.div_euclid(NS) * NS + rng.range_i128(0, NS - 1),
+        2 => (i + rng.range_i128(-5 * NS, 5 * NS)).clamp(MIN_INSTANT, MAX_INSTANT),
+        _ => (i + if high { -rng.range_i128(0, 2 * D) } else { rng.range_i128(0, 2 * D) }).clamp(MIN_INSTANT, MAX_INSTANT),
+    };
+    let Some((b, _)) = sane_value(j, 0) else {
+        rec.bin(SKIP_START);
+        return;
+    };
+    let exp = i.cmp(&j);
+    rec.api("DateTime::cmp/eq");
+    let wit = |obs: serde_json::Value| json!({"a": {"instant": show(i), "offset": off, "note": "local reading lies beyond the range end; built by attaching the offset 3 days inside and moving with add_/sub_seconds"}, "b": {"instant": show(j), "offset": 0}, "model_cmp": ord_name(exp), "observed": obs});
+    match trap(|| (a == b, b == a, a.cmp(&b), b.cmp(&a), a.partial_cmp(&b), a < b, a > b, a <= b, a.max(b) == if exp == Ordering::Less { b } else { a }, a.timestamp())) {
+        Err(pn) => rec.violation(format!("C03|outward-offset-pairs|DateTime ==/cmp|panic|{},{}", pn.class, pn.site()), || wit(pn.to_json())),
+        Ok((eq, eq2, c, rc, pc, lt, gt, le, maxok, ts)) => {
+            let ok = eq == (exp == Ordering::Equal) && eq2 == eq && c == exp && rc == exp.reverse() && pc == Some(exp) && lt == (exp == Ordering::Less) && gt == (exp == Ordering::Greater) && le == (exp != Ordering::Greater) && maxok;
+            if !ok {
+                rec.violation(format!("C03|outward-offset-pairs|DateTime ==/cmp|disagrees-with-instants|model={}", ord_name(exp)), || wit(json!({"eq": eq, "cmp": ord_name(c), "reverse_cmp": ord_name(rc), "lt": lt, "gt": gt, "le": le, "max_is_the_later": maxok})));
+            }
+            let want_ts = (i.div_euclid(NS) - cal::DAYS_TO_1970 as i128 * 86_400) as i64;
+            if ts != want_ts {
+                rec.violation("C03|outward-offset-pairs|DateTime::timestamp|wrong-value".to_string(), || wit(json!({"timestamp": ts, "model": want_ts})));
+            }
+        }
+    }
+}
+
 fn judge_date_pair(rec: &mut Rec, d1: i64, d2: i64) {
     rec.eval();
     rec.api("Date::cmp/eq");
@@ -368,11 +431,14 @@ pub fn run(ctx: &Ctx) -> PropResult {
         };
         judge_time_pair(rec, n1, n2, gen_offset(rng), gen_offset(rng));
     }));
+    wls.push(Workload::cases("range_end_values_with_an_outward_offset", ctx.count(10_000, 400_000), |rec, _, rng| judge_outward_pair(rec, rng)));
     wls.push(Workload::cases("offset_local_twins", ctx.count(3_000, 100_000), |rec, _, rng| super::localzone::twin_pair_case(rec, rng, "C03")));
     let out = run_workloads(ctx, wls);
     let mut meta = PropMeta::default();
     meta.rule = "timestamps: boundary list (range edges ±3 d ±{0,1,2,86399..86401}, 0, 0001-01-01, i64::MIN/MAX, powers of two) + stratified random i64; in range ⇒ DateTime round trip, Date floor-to-day, and the order (cmp, ==) of the value against the values of ts±1, ts±86400, 0 and the day start is the order of the timestamps (as_ymdhms / nanos_since deviations from the model are only noted: other properties own them); out of range ⇒ must panic. pairs: instants (8 strata) x delta (0, ±1 ns, sub-second, k units ± few ns, days, 2^62 ns, uniform) x two independent offsets from the whole ±86399 s range; ==, cmp, partial_cmp, <, >, reverse cmp and the sign of all nine *_since compared with the i128 model instants (inputs are used only where every read-out route agrees with the model, so that a constructor/read-out defect owned by another property skips the case instead of failing it); Date pairs (day order) and Time pairs (as_nanos order) likewise. Non-trivial = any timestamp not in the plain positive class; any pair that is not both far apart and same-offset. Distinct by input hash.".into();
     meta.required_bins = vec![
+        "outward/local-reading-beyond-the-range-end",
+        "local-twin/judged", "local-twin/synthetic-fixed-zone", "local-twin/real-zone-with-transitions",
         "ts/out-low", "ts/out-high", "ts/in-range-edge", "ts/neg-non-aligned", "ts/neg-day-aligned", "ts/pos", "anchor/1970-01-01=0",
         "pair/equal-instant", "pair/straddles-0001-01-01", "pair/sub-second", "pair/same-day", "pair/straddles-midnight-within-24h", "pair/far", "pair/different-offsets",
         "datepair/equal", "datepair/straddles-era", "timepair/equal", "timepair/other",
